@@ -395,13 +395,41 @@ ENC_DEFAULT_UTC = {"PVL": True, "ODL": False, "PDS3": True, "ISIS": True}
 ENC_READER = {"PVL": "PVL", "ODL": "ODL", "PDS3": "PDS3", "ISIS": "ISIS"}
 
 
+import datetime as _dtm
+
+
+class Stamp(_dtm.datetime):
+    """A subclass of datetime.datetime (what pandas.Timestamp, pendulum and freezegun
+    hand out): a date-time like any other."""
+
+
+class Day(_dtm.date):
+    pass
+
+
+class Clock(_dtm.time):
+    pass
+
+
 def obj_from_spec(v):
     from vlib.gen_values import build_value
-    return build_value(v)
+    o = build_value({k: x for k, x in v.items() if k != "sub"})
+    if v.get("sub"):
+        if isinstance(o, _dtm.datetime):
+            return Stamp(o.year, o.month, o.day, o.hour, o.minute, o.second,
+                         o.microsecond, tzinfo=o.tzinfo)
+        if isinstance(o, _dtm.date):
+            return Day(o.year, o.month, o.day)
+        if isinstance(o, _dtm.time):
+            return Clock(o.hour, o.minute, o.second, o.microsecond, tzinfo=o.tzinfo)
+    return o
 
 
 def expect_from_spec(v, default_utc):
-    return nm.expect_value(v, nm.Norm(default_utc=default_utc))
+    return nm.expect_value({k: x for k, x in v.items() if k != "sub"},
+                           nm.Norm(default_utc=default_utc))
+
+
 
 
 def check_encode(enc, cfg, spec):
@@ -463,6 +491,11 @@ def encode_grid(acc, enc):
             _rec(acc, enc, cfg, {"time": [h, m, s, us, tz]})
             for d in (dates[0], dates[3], dates[5], dates[7]):
                 _rec(acc, enc, cfg, {"dt": list(d) + [h, m, s, us, tz]})
+            if us in (0, 123456) and tz in (None, 0, 330, -480):
+                # instances of subclasses of the three classes
+                _rec(acc, enc, cfg, {"time": [h, m, s, us, tz], "sub": True})
+                _rec(acc, enc, cfg, {"dt": list(dates[5]) + [h, m, s, us, tz], "sub": True})
+                _rec(acc, enc, cfg, {"date": list(dates[5]), "sub": True})
 
 
 def _rec(acc, enc, cfg, spec):
